@@ -32,7 +32,12 @@ Verdict(r) ==
          IF r.name \notin ExportNames THEN Bad("not an export of the table")
          ELSE LET args == [j \in 1..Len(r.args) |-> ValOfWire(r.args[j])] IN
               IF ~ArgsAdmitted(r.name, args) THEN Bad("GENERATOR: arguments are not admitted by the declared parameter types")
-              ELSE Judge(r.name, args, OutV(r.out))
+              ELSE LET j == Judge(r.name, args, OutV(r.out)) IN
+                   \* ... and the run-time type the implementation itself reports for the result (Variable::as_type) is a
+                   \* subtype of the declared result type
+                   IF j.ok /\ r.out.k = "value" /\ "tag" \in DOMAIN r.out /\ ~Matches(TypeOfWire(r.out.tag), Export(r.name).r)
+                   THEN Bad("the run-time type of the result is not a subtype of the declared result type")
+                   ELSE j
     [] r.ev = "decl" ->
          IF r.name \notin ExportNames THEN Bad("exported but not in the table of docs/stdlib.md")
          ELSE LET e == Export(r.name)
